@@ -70,6 +70,12 @@ class Color(enum.IntEnum):
     G = 0
 
 
+class Status(enum.IntEnum):
+    """Same values as Color, other member names."""
+    ACTIVE = 1
+    BLOCKED = 0
+
+
 class Shade(enum.Enum):
     DARK = "dark"
     LIGHT = "light"
@@ -474,6 +480,16 @@ class M1S:
 
 
 @dataclass
+class CDstDq:
+    a: int
+    tags: Any
+
+
+def _mk_deque():
+    return collections.deque([0])
+
+
+@dataclass
 class CDstTags:
     a: int
     tags: List[int]
@@ -567,7 +583,7 @@ _t("union",
    UDupAB=Union[DupA, DupB], UDupBA=Union[DupB, DupA])
 _t("scalar",
    int=int, bool=bool, float=float, str=str, Decimal=Decimal, bytes=bytes, bytearray=bytearray, NoneT=type(None),
-   Any=Any, object=object, Color=Color, Shade=Shade, Perm=Perm, BytesIO=io.BytesIO, IOBytes=typing.IO[bytes])
+   Any=Any, object=object, Color=Color, Status=Status, Shade=Shade, Perm=Perm, BytesIO=io.BytesIO, IOBytes=typing.IO[bytes])
 _t("newtype", N1=N1, N2=N2, N3=N3, ListN1=List[N1], ListN2=List[N2])
 _t("annotated",
    AnnInt0=Annotated[int, 0], AnnIntF=Annotated[int, False], AnnIntX=Annotated[int, "x"],
@@ -608,7 +624,7 @@ CONFUSABLE_GROUPS = [
     ["AnnInt0", "AnnIntF", "AnnIntX"], ["AnnListInt1", "AnnListIntT"], ["GInt", "GBool", "GStr", "GBare"],
     ["PairIntStr", "PairStrInt", "PairBoolStr"], ["ListingA", "ListingB"], ["MBoxA", "MBoxB"],
     ["TupUnpack", "TupHolder", "ListTupUnpack"], ["LinkedInt", "LinkedStr", "LinkedBool"], ["TupIntStr", "TupBoolStr"],
-    ["RA", "RB"], ["Node", "ListNode", "OptNode", "DictStrNode", "Holder"], ["int", "bool", "float", "Color"],
+    ["RA", "RB"], ["Node", "ListNode", "OptNode", "DictStrNode", "Holder"], ["int", "bool", "float", "Color", "Status"], ["Color", "Status"],
     ["Unsupported", "ListUnsupported", "CallableT"], ["FlagGap", "UserFG", "GroupFG", "ListFlagGap"], ["bytes", "bytearray", "BytesIO", "IOBytes"],
 ]
 PARTNERS: Dict[str, List[str]] = {}
@@ -674,7 +690,8 @@ DATA: Dict[str, Any] = {
     "m_paths": {"data": {"a": 1, "meta": {"b": "x"}}, "a": 7, "b": "y"}, "inner_paths": {"payload": {"v": 1, "tags": ["t"]}, "v": 2, "tags": ["u"]},
     "pair_paths": {"items": [1, "s"], "first": 2, "second": "t"},
     "outer_upper": {"name": "o", "inner": {"V": 1, "TAGS": ["t"], "v": 2, "tags": ["u"]}, "node": NODE4},
-    "dec": "1.50", "color1": 1, "colorR": "R", "perm3": 3, "perm_names": ["RD", "WR"],
+    "dec": "1.50", "color1": 1, "colorR": "R", "statusA": "ACTIVE", "lbad": ["x", 1, 2, 3], "dbad": {"a": "x", "b": 1, "c": 2}, "lm_bad": [{"a": "no"}, {"a": 1}, {"a": 2}],
+    "ll_bad": [["x"], [1], [2]], "lbad2": [1, "x", 2, "y", 3], "perm3": 3, "perm_names": ["RD", "WR"],
     # a defaultdict is a legal mapping input; looking up a missing required key in it has a side effect
     "dd_m_b": collections.defaultdict(int, {"b": "y"}), "dd_m_a": collections.defaultdict(int, {"a": 1}),
     "dd_inner": collections.defaultdict(list, {"tags": ["t"]}),
@@ -687,12 +704,12 @@ BATTERY: Dict[str, List[str]] = {
     "TupLit01": ["tup_01", "tup_FT"], "TupLitFT": ["tup_01", "tup_FT"],
     "ListLit01": ["l01", "lTF", "lFT"], "ListLitFT": ["l01", "lTF", "lFT"],
     "LitShade": ["sDark"], "LitShadeStr": ["sDark"], "LitBytesA": ["bytesA", "b64"],
-    "ListInt": ["l1", "ls1", "t1", "lTF"], "listInt": ["l1", "ls1", "t1", "lTF"], "SeqInt": ["l1", "t1", "lTF"],
+    "ListInt": ["l1", "ls1", "t1", "lTF", "lbad", "lbad2"], "listInt": ["l1", "ls1", "t1", "lTF", "lbad"], "SeqInt": ["l1", "t1", "lTF"],
     "SetInt": ["l1", "lTF"], "FSetInt": ["l1", "lTF"], "TupIntEll": ["l1", "t1", "lTF"], "TupInt": ["l1", "t1", "l01"],
     "IterInt": ["l1", "t1"], "ListBool": ["lTF", "l01"], "ListFloat": ["l1", "l01"], "DequeInt": ["l1"],
-    "ListListInt": ["ll"], "ListStr": ["lA", "ls1"], "ListAny": ["lmix", "ll"],
+    "ListListInt": ["ll", "ll_bad"], "ListStr": ["lA", "ls1"], "ListAny": ["lmix", "ll"],
     "TupIntStr": ["tup_is", "tup_Ts"], "TupBoolStr": ["tup_is", "tup_Ts"],
-    "DictStrInt": ["dA1", "dAT", "d11"], "MapStrInt": ["dA1", "dAT", "d11"], "MMapStrInt": ["dA1", "d11"],
+    "DictStrInt": ["dA1", "dAT", "d11", "dbad"], "MapStrInt": ["dA1", "dAT", "d11"], "MMapStrInt": ["dA1", "d11"],
     "DDictStrInt": ["dA1", "dAT"], "DictIntInt": ["d11", "dT1"], "DictBoolInt": ["d11", "dT1"], "dictStrInt": ["dA1", "d11"],
     "DictStrListInt": ["dAl", "dA1"], "DDictStrListInt": ["dAl"], "DictStrAny": ["dAl", "dA1"],
     "MapStrListInt": ["dAl", "dAls", "dA1"], "MMapStrListInt": ["dAl", "dAls"], "SeqListInt": ["ll", "lls"], "IterListInt": ["ll"],
@@ -703,12 +720,12 @@ BATTERY: Dict[str, List[str]] = {
     "ULM1LM2": ["lm", "l1"], "ULM2LM1": ["lm", "l1"], "UDM1DM2": ["dm"], "UDM2DM1": ["dm"],
     "UDupAB": ["dup_x"], "UDupBA": ["dup_x"],
     "float": ["f1"], "str": ["s1"], "Decimal": ["dec", "f1"], "bytes": ["b64", "sX"], "bytearray": ["b64"],
-    "Any": ["lmix"], "object": ["lmix"], "Color": ["color1", "colorR"], "Shade": ["sDark"], "Perm": ["perm3", "i2", "perm_names"],
+    "Any": ["lmix"], "object": ["lmix"], "Color": ["color1", "colorR"], "Status": ["color1", "statusA", "i0"], "Shade": ["sDark"], "Perm": ["perm3", "i2", "perm_names"],
     "BytesIO": ["b64"], "IOBytes": ["b64"],
     "N3": ["s1"], "ListN1": ["l1", "lTF"], "ListN2": ["l1", "lTF"],
     "AnnListInt1": ["l1", "lTF"], "AnnListIntT": ["l1", "lTF"],
     "M1": ["m_ab", "m_aTb", "m_a", "m_bad", "m_extra", "dd_m_b", "dd_m_a", "m_legacy", "m_paths"],
-    "M2": ["m_ab", "m_aTb", "m_a", "m_bad", "dd_m_b", "m_legacy"], "M3": ["m_ab", "m_aTb", "m_a", "m_bad", "m_legacy"], "ListM1": ["lm"], "ListM2": ["lm"], "OptM1": ["m_ab", "m_bad"],
+    "M2": ["m_ab", "m_aTb", "m_a", "m_bad", "dd_m_b", "m_legacy"], "M3": ["m_ab", "m_aTb", "m_a", "m_bad", "m_legacy"], "ListM1": ["lm", "lm_bad"], "ListM2": ["lm"], "OptM1": ["m_ab", "m_bad"],
     "DictStrM1": ["dm"], "Inner": ["inner", "inner_neg", "inner_extra", "dd_inner", "inner_paths"], "NT": ["nt", "nt_tags"], "ListNT": ["lnt"],
     "TD": ["td", "td_a"], "AT": ["at", "at_a"], "SnakeCase": ["snake", "snake_camel", "dd_snake"], "WithAny": ["withany"],
     "WithExtra": ["withextra", "withextra_plain"], "WithExtra2": ["withextra", "withextra_plain"], "WithDefaults": ["withdefaults_empty", "withdefaults_full", "dd_wd"],
@@ -781,7 +798,7 @@ def _cnode(depth, v=1):
 OBJECTS: Dict[str, Any] = {
     "o_i0": lambda: 0, "o_i1": lambda: 1, "o_T": lambda: True, "o_F": lambda: False, "o_a": lambda: "a",
     "o_none": lambda: None, "o_f1": lambda: 1.0, "o_dec": lambda: Decimal("1.50"), "o_bytes": lambda: b"abc",
-    "o_barr": lambda: bytearray(b"abc"), "o_colorR": lambda: Color.R, "o_colorG": lambda: Color.G,
+    "o_barr": lambda: bytearray(b"abc"), "o_colorR": lambda: Color.R, "o_colorG": lambda: Color.G, "o_statusA": lambda: Status.ACTIVE, "o_statusB": lambda: Status.BLOCKED,
     "o_dark": lambda: Shade.DARK, "o_perm3": lambda: Perm.RD | Perm.WR,
     "o_l01": lambda: [0, 1], "o_lTF": lambda: [True, False], "o_t01": lambda: (0, 1), "o_s12": lambda: {1, 2},
     "o_fs12": lambda: frozenset({1, 2}), "o_dq": lambda: collections.deque([1, 2]), "o_ll": lambda: [[1], [2, 3]],
@@ -825,6 +842,7 @@ OBJECTS: Dict[str, Any] = {
     "o_mbox_a": lambda: MBox(Money(5), 1), "o_mbox_b": lambda: pools_b.MBox(pools_b.Money(5), 1),
     "o_tnode": lambda: TNode((1, TNode((2, TNode((3, None)))))), "o_withextra3": lambda: WithExtra3(1, {"zzz": [7]}, {"yyy": {"k": [1]}}),
     "o_withextra4": lambda: WithExtra4(1, {"zzz": [7]}, {"yyy": {"k": [1]}}),
+    "o_empty_list": lambda: [], "o_empty_dict": lambda: {},
     "o_csrc": lambda: CSrc(1, 2), "o_dupA": lambda: DupA(1), "o_dupB": lambda: DupB(2),
     "o_dsrcinner": lambda: {"p": SrcInner([1]), "q": SrcInner([2], {"k": [3]})},
 }
@@ -893,7 +911,7 @@ DUMP_BATTERY: Dict[str, List[str]] = {
     "UDupAB": ["o_dupA", "o_dupB"], "UDupBA": ["o_dupA", "o_dupB"],
     "int": ["o_i1", "o_T"], "bool": ["o_T", "o_i1"], "float": ["o_f1"], "str": ["o_a"], "Decimal": ["o_dec"],
     "bytes": ["o_bytes"], "bytearray": ["o_barr"], "NoneT": ["o_none"], "Any": ["o_lmix"], "object": ["o_lmix"],
-    "Color": ["o_colorR", "o_colorG"], "Shade": ["o_dark"], "Perm": ["o_perm3"], "BytesIO": ["o_bytesio", "o_bytesio0"],
+    "Color": ["o_colorR", "o_colorG"], "Status": ["o_statusA", "o_statusB"], "Shade": ["o_dark"], "Perm": ["o_perm3"], "BytesIO": ["o_bytesio", "o_bytesio0"],
     "IOBytes": ["o_bytesio", "o_bytesio0", "o_faulty_stream", "o_text_stream"],
     "N1": ["o_i1"], "N2": ["o_i1"], "N3": ["o_a"], "ListN1": ["o_l01"], "ListN2": ["o_l01"],
     "AnnInt0": ["o_i1"], "AnnIntF": ["o_i1"], "AnnIntX": ["o_i1"], "AnnListInt1": ["o_l01"], "AnnListIntT": ["o_l01"],
@@ -933,6 +951,9 @@ CONVERTERS: Dict[str, Tuple[Any, Any, List[str]]] = {
     "NT2M1": (M1, M2, ["o_m1"]),
     "CLink": (CSrc, CDst, ["o_csrc"]),
     "CTags": (CSrc, CDstTags, ["o_csrc"]),
+    "CDq": (CSrc, CDstDq, ["o_csrc"]),
+    "OptListInner": (Optional[List[SrcInner]], Optional[List[DstInner]], ["o_lsrcinner", "o_empty_list", "o_none"]),
+    "OptDictInner": (Optional[Dict[str, SrcInner]], Optional[Dict[str, DstInner]], ["o_dsrcinner", "o_empty_dict", "o_none"]),
     "CLinkStr": (CSrc, CDstS, ["o_csrc"]),
     "ImplExtra": (CSrc, CDst, ["o_csrc"]),
     "ImplTags": (CSrc, CDstTags, ["o_csrc"]),
@@ -961,6 +982,7 @@ CONV_RECIPES: Dict[str, Any] = {
     "coerce_int_str": lambda: [coercer(int, str, str)],
     "coerce_int_hash": lambda: [coercer(int, str, _hash_str)],
     "link_b_c": lambda: [link(P[CSrc].b, P[CDst].c)],
+    "const_factory_dq": lambda: [link_constant(P[CDstDq].tags, factory=_mk_deque)],
     "const_factory": lambda: [link_constant(P[CDstTags].tags, factory=list), link_function(_sum_ab, P[CDstTags].total)],
     "link_a_c": lambda: [link(P[CSrc].a, P[CDst].c)],
     "link_b_cs": lambda: [link(P[CSrc].b, P[CDstS].c)],
@@ -1024,7 +1046,8 @@ RECIPES: Dict[str, Any] = {
     "scoped_int": lambda: [loader(P[M1].a, _inc, Chain.LAST)],
     "scoped_node_value": lambda: [loader(P[Node].value, _inc, Chain.LAST)],
     "scoped_linked_head": lambda: [loader(P[Linked[int]].head, _inc, Chain.LAST)],
-    "enum_by_name": lambda: [enum_by_name(Color), enum_by_name(Shade)],
+    "enum_by_name": lambda: [enum_by_name(Color, Status), enum_by_name(Shade)],
+    "enum_by_name_all": lambda: [enum_by_name()],
     "validator_inner": lambda: [validator(P[Inner].v, _nonneg, "neg")],
     "dumper_int_str": lambda: [dumper(int, str)],
     "dumper_scoped": lambda: [dumper(P[Node].value, str)],
@@ -1048,7 +1071,8 @@ RECIPE_TYPES: Dict[str, List[str]] = {
     "nm_maps": ["M1", "M2", "M3", "ListM1", "ListM2", "UM1M3"], "nm_saturator": ["SatModel", "SatOpt", "SatOpt"],
     "nm_paths": ["M1", "Inner", "ListM1", "Outer1", "PairIntStr", "PairBoolStr"], "chain_node_children": ["Outer1", "Outer2", "Node", "Holder"],
     "scoped_int": ["M1", "M2", "ListM1", "int"], "scoped_node_value": ["Node", "Holder", "Outer1", "ListNode"],
-    "scoped_linked_head": ["LinkedInt", "LinkedStr", "LinkedBool"], "enum_by_name": ["Color", "Shade", "LitColorR", "LitShade"],
+    "scoped_linked_head": ["LinkedInt", "LinkedStr", "LinkedBool"], "enum_by_name": ["Color", "Status", "Shade", "LitColorR", "LitShade"],
+    "enum_by_name_all": ["Color", "Status", "Shade", "Perm"],
     "flag_names": ["Perm"], "validator_inner": ["Inner", "Outer1", "Outer2"], "dumper_scoped": ["Node", "Holder", "ListNode"],
     "nm_as_list": ["M1", "ListM1", "M2"], "nm_extra_collect": ["WithExtra", "KwModel", "WithExtra2", "WithExtra3", "WithExtra4", "WithExtra4"], "nm_extra_forbid": ["Inner", "Outer1"],
     "asis_m2": ["M2", "ListM2", "M1"], "unsupported_fix": ["Unsupported", "ListUnsupported", "CallableT"],
